@@ -54,10 +54,10 @@ _POOL_TEXT = {
     "n2": ("NS", "ns2.example.net."),
     "x1": ("NSEC", "z.example.net. A NSEC"),
     "x2": ("NSEC", "y.example.net. A TXT NSEC"),
-    "sa": ("RRSIG", "A 8 2 300 20300101000000 20200101000000 1 example. AAAA"),
-    "sa2": ("RRSIG", "A 8 2 300 20300101000000 20200101000000 2 example. AAAB"),
-    "sc": ("RRSIG", "CNAME 8 2 300 20300101000000 20200101000000 1 example. AAAA"),
-    "sx": ("RRSIG", "NSEC 8 2 300 20300101000000 20200101000000 1 example. AAAA"),
+    "sa": ("RRSIG", "A 8 2 300 20300101000000 20200101000000 1 example.net. AAAA"),
+    "sa2": ("RRSIG", "A 8 2 300 20300101000000 20200101000000 2 example.net. AAAB"),
+    "sc": ("RRSIG", "CNAME 8 2 300 20300101000000 20200101000000 1 example.net. AAAA"),
+    "sx": ("RRSIG", "NSEC 8 2 300 20300101000000 20200101000000 1 example.net. AAAA"),
 }
 _pool_cache: dict = {}
 
